@@ -533,7 +533,7 @@ fn run_case(c: &Case) -> String {
     }
 }
 
-fn run(input: &str) -> String {
+pub fn run(input: &str) -> String {
     let c = parse_case(input);
     match catch_unwind(AssertUnwindSafe(|| run_case(&c))) {
         Ok(s) => s,
@@ -1245,7 +1245,7 @@ fn gen_seac(rng: &mut Rng) -> Case {
     }
 }
 
-fn gen(rng: &mut Rng) -> String {
+pub fn gen(rng: &mut Rng) -> String {
     let c = if rng.chance(1, 12) { gen_seac(rng) } else { gen_case(rng) };
     fmt_case(&c)
 }
